@@ -55,6 +55,12 @@ EXPLANATION = (
     "Formatting beyond that, CSV quoting and float round-trip equality "
     "are not decided.")
 
+EXPLANATION += (
+    ' Added after the seeded rounds: the confidence-column rename '
+    'spells names as blob_to_df builds them; every cell gets a CSV row '
+    '(R-COVER).'
+)
+
 RULE_TEXT = (
     "one obligation per consumed record key, per dataset, per record key "
     "of the codec, per constant relation; non-trivial when the key / "
